@@ -263,6 +263,50 @@ def rb_built_objects_well_formed(ctx):
     r.floor("C19.RB", "objects built at extreme coordinates", n, 30)
 
 
+def ri_intersect(ctx):
+    """TranscriptInterval.intersect / FeatureInterval.intersect: a well-formed interval covering exactly the shared bases on the
+    interval's own strand (the query's strand is ignored, as documented), or the documented refusal when nothing is shared"""
+    r, repo = ctx.r, ctx.repo
+    it = gene_interp(repo, max_steps=10 ** 9)
+    S = strands(it)
+    si = lambda a, b, sn: it.apply(ClassTok("SingleInterval"), [a, b, S[sn]], {}, None, 0)  # noqa: E731
+    ci = lambda bl, sn: it.apply(ClassTok("CompoundInterval"), [[x[0] for x in bl], [x[1] for x in bl], S[sn]], {}, None, 0)  # noqa: E731
+    n = 0
+    layouts = [[(4, 10)], [(4, 10), (14, 20)], [(2, 5), (8, 12), (20, 26)]]
+    queries = [[(0, 3)], [(0, 5)], [(6, 16)], [(9, 15)], [(10, 14)], [(0, 30)], [(3, 9), (11, 22)], [(24, 30)], [(19, 20)]]
+    for kind, mod, mk in (("TranscriptInterval", "gene.transcript", mk_transcript), ("FeatureInterval", "gene.feature", mk_feature)):
+        fn = repo.fn(f"{mod}:{kind}.intersect")
+        for lay in layouts:
+            for sn in ("PLUS", "MINUS"):
+                for q in queries:
+                    for qs in ("PLUS", "MINUS", "UNSTRANDED"):
+                        if qs == "UNSTRANDED" and len(q) + len(lay) > 2:
+                            continue
+                        n += 1
+                        # (an interval that carries qualifiers of its own and is given no new ones is refused with ValidationException on
+                        # the reviewed tree - its qualifier sets are handed to a constructor that wants lists. A documented class, so
+                        # outside this property; the cases here pass new qualifiers or carry none)
+                        obj = mk(it, lay, S[sn], qualifiers={"k": ["v"]} if n % 2 else None)
+                        loc = si(q[0][0], q[0][1], qs) if len(q) == 1 else ci(q, qs)
+                        k, v = run(it, fn, [loc], {"new_qualifiers": {"n": ["1"]}} if n % 2 else {}, obj)
+                        A = {p for a, b in lay for p in range(a, b)}
+                        B = {p for a, b in q for p in range(a, b)}
+                        desc = f"{kind} {lay}:{sn} intersect {q}:{qs}"
+                        if not (A & B):
+                            r.check(k == "raise" and v == "EmptyLocationException", "C19.RI", fn.qual, "disjoint intersect refused",
+                                    f"{desc} -> {k}:{v if k == 'raise' else 'an object'}; nothing is shared: documented EmptyLocationException", fn)
+                            continue
+                        if k != "ok":
+                            r.violation("C19.RI", fn.qual, "overlapping intersect answers", f"{desc} raises {v}; shared bases {sorted(A & B)}", fn)
+                            continue
+                        got = {p for a, b in zip(v.fields["_genomic_starts"], v.fields["_genomic_ends"]) for p in range(a, b)}
+                        gs = v.fields["_strand"].name if hasattr(v.fields.get("_strand"), "name") else None
+                        r.check(v.cls_name == kind and got == (A & B) and gs == sn and well_formed(v.fields["_location"]) in (None, ""),
+                                "C19.RI", fn.qual, "intersect = shared bases on the interval's strand",
+                                f"{desc} -> {v.cls_name} covering {sorted(got)} on {gs}; the shared bases are {sorted(A & B)} on {sn}", fn)
+    r.floor("C19.RI", "intersect cases", n, 200)
+
+
 def r1_raise_discipline(ctx):
     r, repo = ctx.r, ctx.repo
     it = gene_interp(repo)
@@ -363,8 +407,89 @@ def r7_optional_attrs(ctx):
     r.ok("C19.R7", "gene", "optional constructor attributes", None, f"{n} unguarded dereferences")
 
 
+def rv_validators(ctx):
+    """the validation helpers every refusal goes through: each require_* accepts what it names and refuses the rest with its
+    documented class (a helper that stops refusing disarms every caller at once)"""
+    r, repo = ctx.r, ctx.repo
+    it = gene_interp(repo, max_steps=10 ** 9)
+    S = strands(it)
+    st = it.enum("SequenceType")
+    OV = "util.object_validation:ObjectValidation"
+    si = lambda a, b, sn="PLUS", p=None: it.apply(ClassTok("SingleInterval"), [a, b, S[sn]], {"parent": p} if p is not None else {}, None, 0)  # noqa: E731
+    seq = mk_sequence(it, "ACGTACGTACGTACGTACGT")
+    seq2 = mk_sequence(it, "TTTTACGTACGTACGTACGT")
+    p_id = mk_parent(it, id="chr1", sequence_type=st["CHROMOSOME"])
+    p_other = mk_parent(it, id="chr2", sequence_type=st["CHROMOSOME"])
+    p_seq = mk_parent(it, id="chr1", sequence_type=st["CHROMOSOME"], sequence=seq)
+    p_seq2 = mk_parent(it, id="chr1", sequence_type=st["CHROMOSOME"], sequence=seq2)
+    p_loc = mk_parent(it, id="chr1", sequence_type=st["CHROMOSOME"], location=si(2, 8))
+    p_par = mk_parent(it, id="c", sequence_type=st["SEQUENCE_CHUNK"], parent=p_id)
+    p_parloc = mk_parent(it, id="c", sequence_type=st["SEQUENCE_CHUNK"], parent=p_loc)
+    table = [
+        ("require_location_nonempty", [si(3, 4)], None), ("require_location_nonempty", [si(3, 3)], "LocationException"),
+        ("require_location_has_parent", [si(3, 9, "PLUS", p_id)], None), ("require_location_has_parent", [si(3, 9)], "NullParentException"),
+        ("require_location_has_parent_with_sequence", [si(3, 9, "PLUS", p_seq)], None),
+        ("require_location_has_parent_with_sequence", [si(3, 9, "PLUS", p_id)], "NullSequenceException"),
+        ("require_location_has_parent_with_sequence", [si(3, 9)], "NullParentException"),
+        ("require_parent_has_location", [p_loc], None), ("require_parent_has_location", [p_id], "NullParentException"),
+        ("require_parent_has_parent", [p_par], None), ("require_parent_has_parent", [p_id], "NullParentException"),
+        ("require_parent_has_parent_with_location", [p_parloc], None), ("require_parent_has_parent_with_location", [p_par], "NullParentException"),
+        ("require_parent_has_parent_with_location", [p_id], "NullParentException"),
+        ("require_parents_equal_except_location", [None, None], None), ("require_parents_equal_except_location", [p_id, p_loc], None),
+        ("require_parents_equal_except_location", [None, p_id], "MismatchedParentException"),
+        ("require_parents_equal_except_location", [p_id, None], "MismatchedParentException"),
+        ("require_parents_equal_except_location", [p_id, p_other], "MismatchedParentException"),
+        ("require_parents_equal_except_location", [p_seq, p_seq2], "MismatchedParentException"),
+        ("require_parents_equal_except_location_and_sequence", [p_seq, p_seq2], None),
+        ("require_parents_equal_except_location_and_sequence", [p_seq, p_other], "MismatchedParentException"),
+        ("require_locations_have_same_nonempty_parent", [si(1, 5, "PLUS", p_id), si(7, 9, "MINUS", p_loc)], None),
+        ("require_locations_have_same_nonempty_parent", [si(1, 5, "PLUS", p_id), si(7, 9)], "NullParentException"),
+        ("require_locations_have_same_nonempty_parent", [si(1, 5), si(7, 9, "PLUS", p_id)], "NullParentException"),
+        ("require_locations_have_same_nonempty_parent", [si(1, 5, "PLUS", p_id), si(7, 9, "PLUS", p_other)], "MismatchedParentException"),
+        ("require_locations_overlap", [si(1, 5), si(4, 9)], None), ("require_locations_overlap", [si(1, 5), si(5, 9)], "LocationOverlapException"),
+        ("require_locations_overlap", [si(1, 5), si(4, 9, "MINUS"), True], "LocationOverlapException"),
+        ("require_locations_overlap", [si(1, 5), si(4, 9, "MINUS")], None),
+        ("require_locations_do_not_overlap", [si(1, 5), si(5, 9)], None), ("require_locations_do_not_overlap", [si(1, 5), si(4, 9)], "LocationOverlapException"),
+        ("require_locations_do_not_overlap", [si(1, 5), si(4, 9, "MINUS"), True], None),
+        ("require_locations_do_not_overlap", [si(1, 5), si(4, 9, "MINUS")], "LocationOverlapException"),
+    ]
+    n = 0
+    seen = set()
+    for name, args, want in table:
+        if not repo.has_fn(f"{OV}.{name}"):
+            r.note(f"C19.RV: {OV}.{name} no longer exists")
+            continue
+        fn = repo.fn(f"{OV}.{name}")
+        seen.add(name)
+        n += 1
+        try:
+            k, v = run(it, fn, list(args), {}, None)
+        except Uninterpretable as ex:
+            r.undecide("C19.RV", fn.qual, f"{name} #{n}", f"not interpretable: {ex}", fn)
+            continue
+        label = f"{name}({', '.join(_brief(it, a) for a in args)})"
+        if want is None:
+            r.check(k == "ok", "C19.RV", fn.qual, f"{label} accepted", f"{label} -> {k}:{v}; a valid argument must be accepted", fn)
+        else:
+            r.check(k == "raise" and (v == want or it.exc_matches(v, want)), "C19.RV", fn.qual, f"{label} refused",
+                    f"{label} -> {k}:{v if k == 'raise' else 'accepted'}; documented refusal {want}", fn)
+    r.floor("C19.RV", "validator cases", n, 30)
+
+
+def _brief(it, a):
+    if isinstance(a, Obj) and a.cls_name in ("SingleInterval", "CompoundInterval"):
+        p = a.fields.get("parent")
+        return f"{blocks_of(a)}{a.fields['strand'].name[0]}" + (f"@{p.fields.get('id')}" + ("+seq" if p.fields.get("sequence") is not None else "") if isinstance(p, Obj) else "")
+    if isinstance(a, Obj) and a.cls_name == "Parent":
+        return (f"Parent({a.fields.get('id')}" + (",seq" if a.fields.get("sequence") is not None else "") + (",loc" if a.fields.get("location") is not None else "")
+                + (",parent" if a.fields.get("parent") is not None else "") + ")")
+    return repr(a)
+
+
 RULES = [
     ("C19.RK", rk_corruptions),
+    ("C19.RV", rv_validators),
+    ("C19.RI", ri_intersect),
     ("C19.RB", rb_built_objects_well_formed),
     ("C19.R1", r1_raise_discipline),
     ("C19.R4", r4_recursion),
